@@ -1,4 +1,4 @@
-"""Translator: nixio/cmd/upgrade.py  ->  NixModel/Generated/UpgradeShape.lean      (property C18)
+"""Translator: nixio/cmd/upgrade.py, nixio/dimensions.py  ->  NixModel/Generated/UpgradeShape.lean      (property C18)
 
 Parses the source with `ast` (never imports it) and renders the *shape* of the upgrade as Lean data over the
 vocabulary of `NixModel/Pure/UpgradeShape.lean`:
@@ -12,7 +12,10 @@ vocabulary of `NixModel/Pure/UpgradeShape.lean`:
   extras: field, test `len(set(x)) > 1` / `any(x)`, action create `<name><suffix>` / set attribute to `x[0]`,
   `if` / `elif` chaining);
 * `update_alias_range_dimension`: detection test, re-check, operations of one conversion in source order;
-* `update_format_version`: the attribute written and its value.
+* `update_format_version`: the attribute written and its value;
+* `nixio/dimensions.py` `RangeDimension.is_alias` (if/elif chain of tests -> bool) and, for the getters `ticks`,
+  `unit`, `label`, from where the answer is read (the group behind the alias link / the DimensionLink / the dimension
+  group) under which test -- the readers through which "reads as before" is stated.
 
 Anything the translator does not recognise raises ExtractError (broken tie: the check goes looking for a failing
 input).  The theorems `Nix.C18.C18_shape_*` interpret these constants and prove them equal to the hand-written model
@@ -432,6 +435,111 @@ def dims_shape(mod):
 
 
 # ------------------------------------------------------------------------------------------------
+# readers of range dimensions (nixio/dimensions.py): `is_alias`, and where `ticks` / `unit` / `label` are read from
+
+DIMS_SOURCE = os.path.join("nixio", "dimensions.py")
+
+
+def _reader_atom(n):
+    s = ast.unparse(n).replace('"', "'")
+    table = {"self._h5group.has_data('ticks')": "has:ticks", "self.has_link": "has:link",
+             "len(self._h5group) > 0": "nonempty", "self.dimension_link._data_object_type == 'DataArray'":
+             "link:DataArray", "self.is_alias": "is_alias"}
+    if s in table:
+        return table[s]
+    raise ExtractError("dimensions.py line %d: test %s is not modelled" % (n.lineno, s))
+
+
+def _prop_getter(cls, name):
+    for n in cls.body:
+        if (isinstance(n, ast.FunctionDef) and n.name == name
+                and any(_is_name(d, "property") for d in n.decorator_list)):
+            return n
+    raise ExtractError("class %s has no property %s" % (cls.name, name))
+
+
+def _bool_chain(fn):
+    """`if t1: return b1 / elif t2: return b2 ... / return b` -> ([(test, bool)], default)"""
+    body = _nodoc(fn.body)
+    rules = []
+
+    def ret_bool(st):
+        if isinstance(st, ast.Return) and isinstance(st.value, ast.Constant) and isinstance(st.value.value, bool):
+            return st.value.value
+        raise ExtractError("%s line %d: expected `return True/False`" % (fn.name, st.lineno))
+    node = body[0] if body else None
+    if not isinstance(node, ast.If) or len(body) != 2:
+        raise ExtractError("%s: expected an if/elif chain followed by a return" % fn.name)
+    while True:
+        if len(node.body) != 1:
+            raise ExtractError("%s line %d: more than one statement in a branch" % (fn.name, node.lineno))
+        rules.append((bexp(node.test, _reader_atom), ret_bool(node.body[0])))
+        if not node.orelse:
+            break
+        if len(node.orelse) == 1 and isinstance(node.orelse[0], ast.If):
+            node = node.orelse[0]
+        else:
+            raise ExtractError("%s line %d: `else` branch is not modelled" % (fn.name, node.lineno))
+    return rules, ret_bool(body[1])
+
+
+def _source_chain(fn, what):
+    """where a reader takes its answer from: [(test, source)], default; sources: redirect (the group behind the alias
+    link), link (the DimensionLink), own (the dimension group)"""
+    body = _nodoc(fn.body)
+    out = []
+    default = None
+
+    def source(stmts):
+        txt = " ; ".join(ast.unparse(x) for x in stmts).replace('"', "'")
+        if "self._redirgrp" in txt and "self.dimension_link" not in txt and "self._h5group." not in txt:
+            return "redirect"
+        if "self.dimension_link" in txt and "self._redirgrp" not in txt and "self._h5group." not in txt:
+            return "link"
+        if "self._h5group." in txt and "self._redirgrp" not in txt and "self.dimension_link" not in txt:
+            return "own"
+        raise ExtractError("RangeDimension.%s line %d: cannot tell where the value is read from" % (what, stmts[0].lineno))
+    for st in body:
+        if isinstance(st, ast.If):
+            if default is not None:
+                raise ExtractError("RangeDimension.%s: test after the default" % what)
+            out.append((bexp(st.test, _reader_atom), source(st.body)))
+            if st.orelse:
+                default = source(st.orelse)
+        elif isinstance(st, ast.Return):
+            if default is None:
+                default = source([st])
+        else:
+            raise ExtractError("RangeDimension.%s line %d: %s is not modelled" % (what, st.lineno, ast.unparse(st)))
+    if default is None:
+        raise ExtractError("RangeDimension.%s: no default source" % what)
+    return out, default
+
+
+def readers_shape(repo):
+    mod = ast.parse(open(os.path.join(repo, DIMS_SOURCE), encoding="utf-8").read())
+    cls = None
+    for n in mod.body:
+        if isinstance(n, ast.ClassDef) and n.name == "RangeDimension":
+            cls = n
+    if cls is None:
+        raise ExtractError("nixio/dimensions.py has no class RangeDimension")
+    rules, default = _bool_chain(_prop_getter(cls, "is_alias"))
+    srcs = {w: _source_chain(_prop_getter(cls, w), w) for w in ("ticks", "unit", "label")}
+    return rules, default, srcs
+
+
+def render_readers(rules, default, srcs):
+    def chain(c):
+        return "[%s]" % ", ".join("(%s, .%s)" % (t, s) for t, s in c)
+    out = ["/-- `RangeDimension.is_alias`: the if/elif chain, then the final `return` -/",
+           "def isAliasRules : List (BExp × Bool) := [%s]" % ", ".join("(%s, %s)" % (t, lean_bool(b)) for t, b in rules),
+           "def isAliasDefault : Bool := %s" % lean_bool(default)]
+    for w in ("ticks", "unit", "label"):
+        c, d = srcs[w]
+        out.append("/-- `RangeDimension.%s` (getter): where the answer is read from, test by test, then the default -/" % w)
+        out.append("def %sSource : List (BExp × Source) × Source := (%s, .%s)" % (w, chain(c), d))
+    return "\n".join(out) + "\n"
 
 
 def shape(repo):
@@ -443,7 +551,7 @@ def shape(repo):
     outer, inner = id_shape(mod)
     return {"op": op, "order": order, "process": process_shape(mod), "id_outer": outer, "id_recheck": inner,
             "bump": bump_shape(mod), "pfind": pfind, "precheck": precheck, "pops": pops, "rules": rules,
-            "dfind": dfind, "dskip": dskip, "dops": dops}
+            "dfind": dfind, "dskip": dskip, "dops": dops, "readers": readers_shape(repo)}
 
 
 TASKS = {"add_file_id": ".fileId", "update_property_values": ".props", "update_alias_range_dimension": ".aliasDims",
@@ -486,10 +594,12 @@ def render(sh):
         "def dimSkip : BExp := %s\n"
         "/-- `update_alias_dims`: writes of one conversion in source order -/\n"
         "def dimOps : List String := [%s]\n\n"
+        "%s\n"
         "end Nix.Upgrade.Gen\n" % (
             sh["op"], order, sh["process"], lean_bool(sh["id_outer"]), lean_bool(sh["id_recheck"]),
             lean_bool(sh["bump"]), sh["pfind"], sh["precheck"], ", ".join(lean_str(o) for o in sh["pops"]),
-            ",\n  ".join(sh["rules"]), sh["dfind"], sh["dskip"], ", ".join(lean_str(o) for o in sh["dops"])))
+            ",\n  ".join(sh["rules"]), sh["dfind"], sh["dskip"], ", ".join(lean_str(o) for o in sh["dops"]),
+            render_readers(*sh["readers"])))
 
 
 def extract(repo):
